@@ -3,6 +3,8 @@
 -/
 import Proofs.Emit
 import Proofs.Parsers
+import Proofs.Metadata
+import Props.C08
 import Facts.Generated
 namespace C10
 open Esdt
@@ -87,10 +89,90 @@ theorem parser_nft_sender_positions (snd tok nonce qty dst : Bytes) (rest : List
             callFn := rest.headD [], callArgs := rest.drop 1 } := by
   cases rest <;> simp [parseESDTTransfers, pArg, bind, PRes.bind, pure, ascii]
 
--- FULL (remaining part, stated): "the parser's report equals exactly what the function debits on the sender side and
--- credits on the destination side" for all three functions incl. destination-form payloads and multi-transfers, and
--- "the destination shard's function of the same name accepts the continuation".  Decided today by the C10 oracle
--- (real parser run on every accepted transfer call and compared with the ledger diff; every emitted message delivered)
--- and the correspondence check; the positional theorems above and `emitted_parses` are the proved part (`_partial`).
+/-! ### the parser's report is what the ledger moves -/
+
+theorem args_cons2 {args : List Bytes} {a b : Bytes} (h0 : args[0]? = some a) (h1 : args[1]? = some b) :
+    ∃ rest, args = a :: b :: rest := by
+  match args, h0, h1 with
+  | x :: y :: rest, h0, h1 => simp at h0 h1; subst h0; subst h1; exact ⟨rest, rfl⟩
+  | [_], _, h1 => simp at h1
+  | [], h0, _ => simp at h0
+
+/-- FULL (ESDTTransfer, sender side): what the parser reports for the transaction — token, amount — is exactly what
+    the function debits from the sender -/
+theorem parser_matches_debit (env : Env) (c : Call) (ctx ctx' : Ctx) (out : VMOutput)
+    (hs : present env.nshards env.self c.caller = true) (hd : present env.nshards env.self c.rcv = false)
+    (h : esdtTransfer env c ctx = .ok (out, ctx')) :
+    ∃ tok amt rest t v, c.args = tok :: amt :: rest ∧
+      parseESDTTransfers c.caller c.rcv (ascii "ESDTTransfer") c.args =
+        .ok { transfers := [{ value := beNat amt, token := tok, type := 0, nonce := 0 }], rcv := c.rcv,
+              callFn := rest.headD [], callArgs := rest.drop 1 } ∧
+      OneWrite ctx.accts ctx'.accts c.caller (esdtKeyPrefix ++ tok) t v (- (beNat amt : Int)) := by
+  obtain ⟨tok, amt, t, v, h0, h1, _, hw, _⟩ := (esdtTransfer_senderOnly_effect env c ctx hs hd).elim h
+  obtain ⟨rest, hargs⟩ := args_cons2 h0 h1
+  exact ⟨tok, amt, rest, t, v, hargs, by rw [hargs]; exact parser_single_positions _ _ _ _ _, hw⟩
+
+/-- FULL (ESDTTransfer, destination side — delivery or refund): … is exactly what the function credits -/
+theorem parser_matches_credit (env : Env) (c : Call) (ctx ctx' : Ctx) (out : VMOutput)
+    (hs : present env.nshards env.self c.caller = false) (hd : present env.nshards env.self c.rcv = true)
+    (h : esdtTransfer env c ctx = .ok (out, ctx')) :
+    ∃ tok amt rest t v, c.args = tok :: amt :: rest ∧
+      parseESDTTransfers c.caller c.rcv (ascii "ESDTTransfer") c.args =
+        .ok { transfers := [{ value := beNat amt, token := tok, type := 0, nonce := 0 }], rcv := c.rcv,
+              callFn := rest.headD [], callArgs := rest.drop 1 } ∧
+      OneWrite ctx.accts ctx'.accts c.rcv (esdtKeyPrefix ++ tok) t v (beNat amt) := by
+  obtain ⟨tok, amt, t, v, h0, h1, _, hw, _⟩ := (esdtTransfer_destOnly_effect env c ctx hs hd).elim h
+  obtain ⟨rest, hargs⟩ := args_cons2 h0 h1
+  exact ⟨tok, amt, rest, t, v, hargs, by rw [hargs]; exact parser_single_positions _ _ _ _ _, hw⟩
+
+/-- FULL (ESDTNFTTransfer, sender side, cross-shard): token, nonce and quantity reported by the parser are the ones of
+    the entry the function debits, and the receiver it reports is the destination argument -/
+theorem parser_matches_nft_debit (env : Env) (c : Call) (ctx ctx' : Ctx) (out : VMOutput)
+    (hs : present env.nshards env.self c.caller = true)
+    (hx : ∀ d, c.args[3]? = some d → env.self ≠ shardOf env.nshards d)
+    (h : esdtNFTTransferSender env c ctx = .ok (out, ctx')) :
+    ∃ tok nb qb dst rest t v, c.args = tok :: nb :: qb :: dst :: rest ∧
+      parseESDTTransfers c.caller c.caller (ascii "ESDTNFTTransfer") c.args =
+        .ok { transfers := [{ value := beNat qb, token := tok, type := 1, nonce := u64 (beNat nb) }], rcv := dst,
+              callFn := rest.headD [], callArgs := rest.drop 1 } ∧
+      NftWrite ctx.accts ctx'.accts c.caller (esdtKeyPrefix ++ tok) (u64 (beNat nb)) t v (v - beNat qb) := by
+  obtain ⟨tok, nb, qb, dst, t, v, h0, h1, h2, h3, _, _, hw, _⟩ :=
+    (nftTransferSender_crossShard_effect env c ctx hs hx).elim h
+  have hargs : ∃ rest, c.args = tok :: nb :: qb :: dst :: rest := by
+    match hc : c.args, h0, h1, h2, h3 with
+    | a :: b :: d :: e :: rest, h0, h1, h2, h3 =>
+      simp at h0 h1 h2 h3; subst h0; subst h1; subst h2; subst h3; exact ⟨rest, rfl⟩
+    | [_, _, _], _, _, _, h3 => simp at h3
+    | [_, _], _, _, h2, _ => simp at h2
+    | [_], _, h1, _, _ => simp at h1
+    | [], h0, _, _, _ => simp at h0
+  obtain ⟨rest, hargs⟩ := hargs
+  exact ⟨tok, nb, qb, dst, rest, t, v, hargs, by rw [hargs]; exact parser_nft_sender_positions _ _ _ _ _ _, hw⟩
+
+/-- FULL (ESDTNFTTransfer, delivery): the quantity the parser reports for the delivered message (its 3rd argument) is the
+    quantity the destination is credited with (the `Value` of the payload the sender side built): the destination entry
+    becomes the sender's entry with `Value := that quantity + existing` (C08.cross_shard_hop) -/
+theorem parser_matches_nft_delivery (envS envD : Env) (cS cD : Call) (ctxS ctxS' ctxD ctxD' : Ctx) (outS outD : VMOutput)
+    (hself : cS.caller = cS.rcv) (hpres : present envS.nshards envS.self cS.caller = true)
+    (hx : ∀ d, cS.args[3]? = some d → envS.self ≠ shardOf envS.nshards d)
+    (hS : esdtNFTTransfer envS cS ctxS = .ok (outS, ctxS'))
+    (hne : cD.caller ≠ cD.rcv)
+    (hdeliver : ∀ dst tr, outS.outAccts = [{ addr := dst, transfers := [tr] }] →
+      cD.rcv = dst ∧ parseCall tr.data = .ok (cD.fn, cD.args))
+    (hD : esdtNFTTransfer envD cD ctxD = .ok (outD, ctxD'))
+    (hok : ∀ t q, decToken (ctxS.accts.read cS.caller
+        (nftKey (esdtKeyPrefix ++ (cS.args[0]?).getD []) (u64 (beNat ((cS.args[1]?).getD []))))) = some t →
+        TokenOK { t with value := some q }) :
+    ∃ tok nb qb t cv, cS.args[0]? = some tok ∧ cS.args[1]? = some nb ∧ cS.args[2]? = some qb ∧
+      decToken (ctxS.accts.read cS.caller (nftKey (esdtKeyPrefix ++ tok) (u64 (beNat nb)))) = some t ∧
+      ctxD'.accts.read cD.rcv (nftKey (esdtKeyPrefix ++ tok) (mdNonce t)) =
+        nftStoredForm { t with value := some ((beNat qb : Int) + cv) } :=
+  C08.cross_shard_hop envS envD cS cD ctxS ctxS' ctxD ctxD' outS outD hself hpres hx hS hne hdeliver hD hok
+
+-- PARTIAL: the item-wise statement for MultiESDTNFTTransfer (the parser's loop `parseMultiLoop` and the functions' loops read
+-- the same argument positions idx, idx+1, idx+2 with the same decodings — visible in the two definitions, not stated as a
+-- theorem) and "the destination shard's function of the same name accepts the continuation" (a liveness-style statement
+-- about a successful result) are decided by the C10 oracle (real parser run on every accepted transfer call and compared
+-- with the ledger diff; every emitted message delivered) and the correspondence check.
 
 end C10
